@@ -36,7 +36,7 @@ def gen_a(rng, sc, tier):
         auth["cmd"] = ["authprog", "--user", "#USER#", "--pass", "#PASS#"]
         lat = rng.choice([0, 0, 30, 400])
         change_at = rng.choice([0, 3000, 9000])   # 0 = never changes
-        for (u, p) in [("bob", "builder"), ("carol", "x" * 255)]:
+        for (u, p) in [("bob", "builder"), ("carol", "x" * 255), ("twin", "twin")]:
             if rng.random() < 0.8:
                 verdicts.append((u, p, 0, change_at))
                 sc.cmds.append({"argv": ["authprog", "--user", u, "--pass", p], "exit": 0, "latency_ms": lat, "from_ms": 0, "until_ms": change_at})
@@ -53,7 +53,9 @@ def gen_a(rng, sc, tier):
     attempts = []
     n = rng.randint(2, 7)
     pool = [("alice", "s3cret"), ("alice", "wrong"), ("bob", "builder"), ("bob", "Builder"), ("carol", "x" * 255), ("carol", "x" * 254), ("", ""), ("mallory", "s3cret"),
-            ("dave", "late"), ("v4user", ""), ("alice", ""), (b"al\xffice", b"s3cret"), ("alice", b"s3cr\xe9t")]
+            ("dave", "late"), ("v4user", ""), ("alice", ""), (b"al\xffice", b"s3cret"), ("alice", b"s3cr\xe9t"),
+            # the placeholders of the command template as credentials: they are data, not template text
+            ("#PASS#", "twin"), ("#PASS#", "builder"), ("twin", "#USER#"), ("#USER#", "#PASS#"), ("bob", "#PASS#")]
     base = rng.choice(pool)
     if use_cmd and rng.random() < 0.4:
         base = ("bob", "builder")     # a pair only the external program knows: its verdict goes through the cache
